@@ -116,6 +116,29 @@ inductive Unescapes : Bytes → Bytes → Prop
       Unescapes (0x5c :: 0x75 :: a :: b :: c :: d :: 0x5c :: 0x75 :: a' :: b' :: c' :: d' :: rest)
         (encodeRune (0x10000 + (hi - 0xD800) * 0x400 + (lo - 0xDC00)) ++ m)
 
+/-- `UnescapesLossy body m k`: like `Unescapes`, for content that may also hold raw ill-formed UTF-8 bytes (accepted
+under AllowInvalidUTF8): each ill-formed byte — a byte that does not start a well-formed sequence in the remaining
+content — stands for exactly one U+FFFD; `k` counts them. -/
+inductive UnescapesLossy : Bytes → Bytes → Nat → Prop
+  | nil : UnescapesLossy [] [] 0
+  | unescaped {p rest m : Bytes} {r k : Nat} :
+      decodeRune p = (r, p.length) → p ≠ [] → illFormedHead p = false →
+      0x20 ≤ r → r ≠ 0x22 → r ≠ 0x5c → UnescapesLossy rest m k → UnescapesLossy (p ++ rest) (p ++ m) k
+  /-- one ill-formed byte ↦ one U+FFFD -/
+  | bad {c : UInt8} {rest m : Bytes} {k : Nat} :
+      0x80 ≤ c.toNat → illFormedHead (c :: rest) = true → UnescapesLossy rest m k →
+      UnescapesLossy (c :: rest) (replacement ++ m) (k + 1)
+  | simple {e v : UInt8} {rest m : Bytes} {k : Nat} :
+      (e, v) ∈ simpleEscapes → UnescapesLossy rest m k → UnescapesLossy (0x5c :: e :: rest) (v :: m) k
+  | unicode {a b c d : UInt8} {v : Nat} {rest m : Bytes} {k : Nat} :
+      hex4 a b c d = some v → isSurrogate v = false → UnescapesLossy rest m k →
+      UnescapesLossy (0x5c :: 0x75 :: a :: b :: c :: d :: rest) (encodeRune v ++ m) k
+  | pair {a b c d a' b' c' d' : UInt8} {hi lo : Nat} {rest m : Bytes} {k : Nat} :
+      hex4 a b c d = some hi → hex4 a' b' c' d' = some lo →
+      isHighSurrogate hi = true → isLowSurrogate lo = true → UnescapesLossy rest m k →
+      UnescapesLossy (0x5c :: 0x75 :: a :: b :: c :: d :: 0x5c :: 0x75 :: a' :: b' :: c' :: d' :: rest)
+        (encodeRune (0x10000 + (hi - 0xD800) * 0x400 + (lo - 0xDC00)) ++ m) k
+
 /-- `lit` is a JSON string literal whose meaning is the text `m`. -/
 def StringLiteral (lit m : Bytes) : Prop := ∃ body, lit = 0x22 :: (body ++ [0x22]) ∧ Unescapes body m
 
